@@ -555,6 +555,17 @@ def c05_executions(tier, seed):
         traces.append(run({'rx_routes': rx, 'tx_routes': tx}, steps))
         metas.append({'mode': mode, 'total': total, 'mtu': mtu, 'envelope': env, 'whole': whole, 'ext': ename,
                       'crc': crc, 'case': special, 'flags': flags, 'own_blocks_octets': delta})
+    # bundles in transit from sources without a clock (creation time 0, told apart by their sequence numbers, age in
+    # a Bundle Age block), with lifetime 0 or not: their fragments keep that identity like any other fragment
+    for (k, (total, lifetime, crc)) in enumerate(itertools.product((300, 1000), (0, 3600000), (0, 1, 2))):
+        ext_c = [age(2, 1234 + k)] + ([unknown(3, 2, flags=1)] if k % 2 else [])
+        octets = mk(src='dtn://src/app', dest='dtn://other/svc', rpt='dtn:none', flags=0, crc=crc, ext=ext_c,
+                    pay=payload(total, 77 + k), ts=(0, 60 + k), lifetime=lifetime)
+        mtu = envelope('dtn://other/svc', 'dtn://src/app', 0, crc, ext_c, total, total - 1) + 60 + 11 * k
+        traces.append(run({'rx_routes': [('dtn://other/', 'forward')], 'tx_routes': [('dtn://other/', 'dtn://other/', mtu)]},
+                          [('recv', octets, {'note': 'clockless'}), ('idle',)]))
+        metas.append({'mode': 'forward', 'total': total, 'mtu': mtu, 'case': 'clockless source', 'crc': crc,
+                      'lifetime': lifetime})
     # an application that keeps one container and replaces the bundle in it between requests: bundles of the same
     # block layout and different sizes one after the other (fits / needs fragments, in every order of two or three)
     ext_r = [hop_count(2, 30, 1)]
@@ -679,6 +690,27 @@ def c06_executions(tier, seed):
         traces.append(run({'rx_routes': rx, 'tx_routes': tx}, steps, scenario={'orig': orig}))
         metas.append({'bundles': [[s, len(f)] for (s, f) in bundles], 'arrivals': arrivals, 'dropped_one': drop,
                       'damaged_copies_first': ndamaged})
+    # one bundle fragmented differently on two paths (different MTUs): fragments of both cuts arrive, some of each
+    # are lost, and what arrives covers the payload - two fragments may start at the same offset with different lengths
+    for (k, (total, a, b, order)) in enumerate(itertools.product((40, 9), (0.25, 0.5), (0.75,), range(4))):
+        (ca, cb) = (max(1, int(total * a)), max(2, int(total * b)))
+        pay = payload(total, 200 + k)
+        src, ts = 'dtn://src/app', (9800 + k, 0)
+        ext = [hop_count(2, 9, 1)]
+
+        def fr(o, n, src=src, ts=ts, pay=pay, total=total, ext=ext, k=k):
+            return mk(src=src, dest=PROBE, ts=ts, pay=pay[o:o + n], frag=(o, total), ext=ext if o == 0 else [],
+                      crc=k % 3, rpt='dtn://rpt/r')
+        arr = [[(0, ca), (0, cb), (cb, total - cb)], [(0, cb), (0, ca), (cb, total - cb)],
+               [(cb, total - cb), (0, ca), (0, cb)], [(0, ca), (cb, total - cb), (ca, cb - ca), (0, cb)]][order]
+        steps = []
+        for (o, n) in arr:
+            steps += [('recv', fr(o, n), {'note': 'cut [%d,%d)' % (o, o + n)}), ('idle',)]
+        orig = {'%s|%d|%d' % (src, ts[0], ts[1]): {'len': total, 'dig': dig(pay)}}
+        traces.append(run({'rx_routes': [(PROBE, 'deliver')], 'tx_routes': [('dtn://rpt/', 'dtn://rpt/', None)]}, steps,
+                          scenario={'orig': orig}))
+        metas.append({'bundles': [['two cuts', len(arr)]], 'arrivals': [list(x) for x in arr], 'dropped_one': True,
+                      'damaged_copies_first': 0})
     # long histories: the repeats of a completed bundle's fragments arrive after many other bundles, and a bundle
     # of very many fragments arrives twice over (what has been seen must not be forgotten)
     for k in range(2 if tier == 'quick' else 12):
